@@ -339,7 +339,11 @@ func TestC12Inputs(t *testing.T) {
 			if rapid.IntRange(0, 5).Draw(t, "moveClock") == 0 {
 				off := int64(s.S.VerifSnapshot().Offset)
 				var now int64
-				switch rapid.IntRange(0, 3).Draw(t, "clockClass") {
+				switch rapid.IntRange(0, 4).Draw(t, "clockClass") {
+				case 4:
+					// exactly at the ends of the window and one week further (where the
+					// clock stands after the first of two catch-up rotations)
+					now = off + rapid.SampledFrom([]int64{4031, 4032, 4033, 6047, 6048, 6049, 2016, 8064}).Draw(t, "exactEdge")
 				case 0:
 					now = off + rapid.Int64Range(3600, 4032+432).Draw(t, "edge")
 				case 1:
@@ -355,7 +359,7 @@ func TestC12Inputs(t *testing.T) {
 				glow.SetCurrentTimeslot(uint32(now))
 				e.hist = append(e.hist, fmt.Sprintf("clock %d (offset %d)", now, off))
 			}
-			kind := rapid.SampledFrom([]string{"udp", "udp", "tcp", "http", "http", "http", "rotate"}).Draw(t, "inputKind")
+			kind := rapid.SampledFrom([]string{"udp", "udp", "tcp", "http", "http", "http", "rotate", "impact"}).Draw(t, "inputKind")
 			switch kind {
 			case "udp":
 				e.udpInput(t)
@@ -369,6 +373,16 @@ func TestC12Inputs(t *testing.T) {
 					e.fail("rotation loop did not complete a granted step")
 				}
 				s.M.Offset = s.S.VerifSnapshot().Offset
+			case "impact":
+				// the impact-data job runs at whatever the clock says, too
+				e.hist = append(e.hist, fmt.Sprintf("impact-data step (clock %d, offset %d)", s.now, s.S.VerifSnapshot().Offset))
+				if !world.Step(s.S.S, "impact") {
+					if ps := server.VerifPanics(); len(ps) > 0 {
+						e.fail("impact-data job panicked: %s: %s", ps[0].Where, ps[0].Value)
+					}
+					e.fail("impact-data job did not complete a granted step")
+				}
+				e.reach = true
 			}
 			e.probe(e.hist[len(e.hist)-1])
 			ev.Eval(1)
